@@ -11,9 +11,9 @@ import (
 
 func init() {
 	register(&Rule{
-		ID: "C07",
+		ID:      "C07",
 		Explain: "Decides query-reply routing for every arrival order and interleaving as shape facts: every send on a QueryResponse's ack/response channel happens with closeLock held and behind !closed in that critical section; close happens under the same lock behind !closed with closed=true set (exactly once, no send after close); the send methods are called only from the reply handler behind table-hit, id-equal and !Finished; the per-node 'already seen' test and the mark are in the SAME closeLock critical section as the send, and the acks/responses maps are never touched without that lock (NotifyMsg is concurrently callable); the timeout closure deletes the table entry and closes under queryLock. Timer firing and channel capacity (drops are allowed) are not covered.",
-		Run: runC07,
+		Run:     runC07,
 		Mutants: []Mutant{
 			{Name: "dedupe-outside-lock", File: "serf/query.go", Func: "func (r *QueryResponse) sendResponse(", Old: "\tif _, ok := r.responses[nr.From]; ok {\n\t\treturn true, nil\n\t}\n", New: "", Expect: "R3"},
 			{Name: "send-ignores-closed", File: "serf/query.go", Func: "func (r *QueryResponse) sendAck(", Old: "\tif r.closed {\n\t\treturn false, nil\n\t}\n", New: "", Expect: "R1"},
